@@ -248,3 +248,15 @@ def run(F, rep):
     rep.floor('C08.T1', 30)
     rep.floor('C08.T2', 30)
     rep.floor('C08.T3', 40)
+
+    # ------------------------------------------------------------------ P: balanced recursion paths of the reducers
+    rep.rule('C08.P1', 'a reducer that keeps the current recursion path in a container parameter (push_back on entry, pop_back on exit) pops what it pushed on every path that does not report failure: '
+                       'otherwise units met a second time along another branch of the same definition are mistaken for a cycle and left out of the reduction')
+    import recursion
+    n_p = 0
+    for g in (fu, fv):
+        for c, name, ok, detail in recursion.path_guard_balance(F, g):
+            n_p += 1
+            rep.check(ok, 'C08.P1', '%s|%s' % (g.name, name), g.where(c), '%s: after `%s` some path reaches the exit without pop_back (%s)' % (g.short, render(c)[:40], detail), 'balanced (%s)' % detail)
+    if n_p < 2:
+        raise AnalysisBroken('C08.P1: path guards of the reducers vanished (%d found, 2 confirmed)' % n_p)
